@@ -107,6 +107,10 @@ func (c *Ctx) literalRows(info *types.Info, lit *ast.CompositeLit) []map[string]
 			elemT, _ = u.Elem().Underlying().(*types.Struct)
 		case *types.Array:
 			elemT, _ = u.Elem().Underlying().(*types.Struct)
+		case *types.Map:
+			// rows keyed by a constant: the values are the rows (a key that is absent reads as the zero row, which the rules
+			// using such tables treat like any other unlisted constant)
+			elemT, _ = u.Elem().Underlying().(*types.Struct)
 		case *types.Struct:
 			// a single record: one row
 			elemT, single = u, true
@@ -220,6 +224,8 @@ func (c *Ctx) rowSource(v ssa.Value, depth int) []map[string]string {
 	case *ssa.Global:
 		return c.tableRowsOfGlobal(x)
 	case *ssa.Index:
+		return c.rowSource(x.X, depth+1)
+	case *ssa.Lookup:
 		return c.rowSource(x.X, depth+1)
 	case *ssa.Slice:
 		return c.rowSource(x.X, depth+1)
